@@ -131,6 +131,9 @@ type world struct {
 	ust     *badgerstore.Store // untyped store: no SetType, values are map[string]interface{}
 	cst     *badgerstore.Store // collections: values are []string
 	std     *logger.StdLogger  // writes to the null device
+	// sharedErr: an error value without code that several handlers, on different workers, pass
+	// to Error at the same time (read-only use, like the library's predefined errors)
+	sharedErr atomic.Pointer[res.Error]
 	qs      *badgerstore.QueryStore
 	log     *logger.MemLogger
 	cbs     int64
@@ -142,6 +145,7 @@ type world struct {
 
 func newWorld(p Program) (*world, error) {
 	w := &world{}
+	w.sharedErr.Store(&res.Error{Message: "shared error without a code"})
 	db, _, cleanup, err := bdb.OpenTemp("c16")
 	if err != nil {
 		return nil, err
@@ -203,6 +207,12 @@ func newWorld(p Program) (*world, error) {
 		// catch-all methods: many method names, each seen for the first time on some resource
 		res.Call("*", func(r res.CallRequest) { touch(r); r.OK(r.Method()) }),
 		res.Auth("*", func(r res.AuthRequest) { touch(r); r.OK(r.Method()) }))
+	s.Handle("e.$id", res.Call("fail", func(r res.CallRequest) {
+		// a package-level error value without code, shared by all handlers like the library's own
+		// predefined errors
+		touch(r)
+		r.Error(w.sharedErr.Load())
+	}))
 	s.Handle("w.$id", res.GetModel(func(r res.ModelRequest) { touch(r); r.Model(map[string]int{"v": 1}) }),
 		res.Call("*", func(r res.CallRequest) { touch(r); r.OK(r.Method()) }),
 		res.Auth("*", func(r res.AuthRequest) { touch(r); r.OK(r.Method()) }))
@@ -330,6 +340,13 @@ func (w *world) exec(op Op, family map[string]bool, mu *sync.Mutex) {
 	case "call":
 		note("request")
 		conn.Deliver("call."+op.RID+".do", reply(), []byte(`{"cid":"c1"}`))
+	case "sharederr":
+		note("request")
+		// a fresh error value, then four handlers on different resources use it at once
+		w.sharedErr.Store(&res.Error{Message: "shared error without a code " + strconv.Itoa(op.N)})
+		for k := 0; k < 4; k++ {
+			conn.Deliver("call.svc.e."+strconv.Itoa(k)+".fail", reply(), []byte(`{"cid":"c1"}`))
+		}
 	case "callstar":
 		// a method served by the catch-all handler; the names vary
 		note("request")
@@ -643,7 +660,7 @@ func genProgram() *rapid.Generator[Program] {
 		p.Yield = rapid.SampledFrom([]int{0, 50, 200, 500}).Draw(t, "yield")
 		p.Sleep = rapid.SampledFrom([]int{0, 10, 100}).Draw(t, "sleep")
 		nt := rapid.IntRange(2, 16).Draw(t, "threads")
-		kinds := []string{"get", "get", "call", "call", "access", "callquery", "qreq", "with", "with", "withgroup", "withres", "reset", "resetall", "token", "tokenreset", "mstore", "mstore", "bstore", "bstore", "bread", "ustore", "ustore", "uread", "bquery", "bflush", "logread", "sleep", "cstore", "cstore", "stdlog", "callstar", "callstar", "qreq"}
+		kinds := []string{"get", "get", "call", "call", "access", "callquery", "qreq", "with", "with", "withgroup", "withres", "reset", "resetall", "token", "tokenreset", "mstore", "mstore", "bstore", "bstore", "bread", "ustore", "ustore", "uread", "bquery", "bflush", "logread", "sleep", "cstore", "cstore", "stdlog", "callstar", "callstar", "qreq", "sharederr", "sharederr"}
 		restartThread := -1
 		if rapid.IntRange(0, 2).Draw(t, "withrestart") == 0 {
 			restartThread = rapid.IntRange(0, nt-1).Draw(t, "rthread")
